@@ -88,6 +88,19 @@ package queue
 //@   on return assert run-of-equal-priority: n.conf.Priority == group.conf.Priority && (n.next == nil || n == group || old(n.next) == nil || old(n.next).conf.Priority != group.conf.Priority)
 //@   loop 0 invariant n != nil && n.conf != nil && n.conf.Priority == p && p == group.conf.Priority
 
+// addGroup: groups are kept in descending priority; a new group that outranks the head becomes the
+// head, otherwise the head stays (Pop starts every search at the head, so a group in front of the
+// head would never be served)
+//@ func (*Tagged).addGroup
+//@   requires group != nil && group.conf != nil
+//@   on return assert first-group-becomes-head: old(q.headGroup) == nil ==> q.headGroup == group
+//@   on return assert outranking-group-becomes-head: old(q.headGroup) != nil && old(q.headGroup) != group && old(q.headGroup.prev) != group && group.conf.Priority > old(q.headGroup).conf.Priority ==> q.headGroup == group && group.next == old(q.headGroup) && old(q.headGroup).prev == group
+//@   on return assert head-stays-otherwise: old(q.headGroup) != nil && group.conf.Priority <= old(q.headGroup).conf.Priority ==> q.headGroup == old(q.headGroup)
+//@   before call (*sortedGroup).addBefore assert in-front-of-the-first-lower-priority: arg0 == group && arg1 == g && group.conf.Priority > g.conf.Priority
+//@   before call (*sortedGroup).addAfter assert behind-the-last: arg0 == group && arg1 == g && g.next == nil && group.conf.Priority <= g.conf.Priority
+//@   loop 0 invariant g != nil && q.headGroup == old(q.headGroup) && unchanged(group.conf) && unchanged(group.conf.Priority) && unchanged(q.headGroup.conf) && unchanged(q.headGroup.conf.Priority) && (g != q.headGroup ==> group.conf.Priority <= q.headGroup.conf.Priority)
+//@   modifies allof(sortedGroup).next, allof(sortedGroup).prev, q.headGroup
+
 //@ func (*Tagged).removeFile
 //@   modifies entries(q.headFile), entries(q.byFile)
 
